@@ -243,6 +243,10 @@ def byte_value(prog, f, e, bufname, env=None, depth=0):
                     return _bv({b[1]: 0})
                 if ai and a[1] == 0xFF and is_b(b) and list(b['b'].values()) == [0]:
                     return b
+                if ai and not is_b(b) and b[0] == 'raw':
+                    if (a[1] & 0xFF) != 0xFF:
+                        return ('bad', 'byte %d is masked with %#x: bits of the byte are dropped' % (b[1], a[1]))
+                    return ('bad', 'byte %d is masked with %#x: sign-extension bits are kept' % (b[1], a[1]))
                 return None
             if op == '<<' and bi:
                 if is_b(a):
@@ -257,6 +261,8 @@ def byte_value(prog, f, e, bufname, env=None, depth=0):
                     d = dict(a['b'])
                     d.update(b['b'])
                     return _bv(d)
+                if is_b(a) and is_b(b):
+                    return ('bad', 'bytes %s and %s overlap in the composed value' % (sorted(a['b'].items()), sorted(b['b'].items())))
             return None
         if k in ('CallExpr',) and depth < 3:
             cal = n.get('callee') or {}
